@@ -18,7 +18,7 @@ use crate::{
     wire,
 };
 
-pub fn profile(prop: &str) -> Option<Profile> {
+pub fn profile(prop: &str, thorough: bool) -> Option<Profile> {
     let z = Weights::zero();
     let base = Profile {
         prop: "C00",
@@ -36,7 +36,17 @@ pub fn profile(prop: &str) -> Option<Profile> {
         random_hints: false,
         edited_initial_structure: false,
     };
-    Some(match prop {
+    let deeper = |mut p: Profile| -> Profile {
+        // thorough tier: longer histories, one more dimension for the static table
+        if thorough {
+            p.ops = (p.ops.0 + p.ops.0 / 2, p.ops.1 * 2);
+            if p.name == "static-cover" {
+                p.max_dims = 4;
+            }
+        }
+        p
+    };
+    Some(deeper(match prop {
         // static structure, many policies, the full key × right table
         "C01" | "C02" => Profile {
             prop: if prop == "C01" { "C01" } else { "C02" },
@@ -149,7 +159,7 @@ pub fn profile(prop: &str) -> Option<Profile> {
             ..base
         },
         _ => return None,
-    })
+    }))
 }
 
 /// Is this history non-trivial for the property, and what is its shape?
@@ -176,6 +186,7 @@ fn shape_of(prop: &str, w: &World) -> Option<u64> {
 }
 
 pub struct RunCfg {
+    pub thorough: bool,
     pub prop: String,
     pub seed: u64,
     pub max_histories: u64,
@@ -184,7 +195,7 @@ pub struct RunCfg {
 }
 
 pub fn run(cfg: &RunCfg) -> Stats {
-    let Some(profile) = profile(&cfg.prop) else {
+    let Some(profile) = profile(&cfg.prop, cfg.thorough) else {
         let mut s = Stats::default();
         s.inconclusive.push(format!("no profile for {}", cfg.prop));
         return s;
